@@ -59,7 +59,10 @@ def _case(draw):
             'ncc': draw(st.sampled_from([12, 12, 3, 5])),
             'samedir': draw(st.sampled_from(['plain', 'str', 'dotdot', 'symlink', 'relative'])),
             'second': draw(st.booleans()), 'second_label': draw(st.sampled_from(LABELS)),
-            'reexport': draw(st.none() | st.lists(D._curation_op, min_size=1, max_size=3))}
+            'reexport': draw(st.none() | st.lists(D._curation_op, min_size=1, max_size=3)),
+            # the output folder is the user's: blanks, brackets, glob characters
+            'outname': draw(st.sampled_from(['alf', 'alf', 'alf [probe00]', 'out*put', 'a?f',
+                                             'alf (2020-01-31)']))}
 
 
 def drivers(tier):
@@ -210,7 +213,7 @@ def _check(case):
                        target, **({'force': True} if case.get('second') else {}))
             require(D.sha_dir(T.dir) == before, 'refused conversion changed the source directory',
                     key='same-dir-wrote')
-            out = d / 'alf'
+            out = d / case.get('outname', 'alf')
             out_model = must_return('convert', creator.convert, out, label=label,
                                     ampfactor=case['factor'])
             verify_output(out, out_model, T, sc, n_clusters, label)
@@ -307,6 +310,8 @@ def classify(case, info):
         labels.append('extra:' + e)
     if case.get('second'):
         labels.append('second-conversion-same-model')
+    if case.get('outname', 'alf') != 'alf':
+        labels.append('special-characters-in-output-folder-name')
     if info.get('reexported'):
         labels.append('re-export-into-same-directory')
     if max(s['spike_templates']) < s['nt'] - 1:
